@@ -154,6 +154,39 @@ func c13Oracle(r *nhRun) (string, string) {
 			}
 		}
 	}
+	// PRoPHET: a peer whose summary vector advertises a greater predictability for the destination is eligible; after a
+	// failed transmission it is eligible again at the next retry
+	if algo == "prophet" && e.Op == "retry" {
+		vector := map[string]bool{}
+		for _, st := range r.steps {
+			switch {
+			case st.Event.Op == "restart":
+				vector = map[string]bool{} // the vectors live in memory
+			case st.Event.Op == "receive" && (st.Event.B == 2 || st.Event.B == 3):
+				vector[st.Event.P] = true
+			}
+		}
+		for i, t := range r.tr {
+			if i > 1 || !t.Accepted || r.expired(i) || !r.n.storeInfo(t.ID).Known {
+				continue
+			}
+			destUp := false
+			for _, p := range r.n.connectedPeers() {
+				destUp = destUp || p == r.sc.Bundles[i].Dest
+			}
+			if destUp {
+				continue
+			}
+			for _, p := range r.n.connectedPeers() {
+				if !vector[p] || p == t.Prev || okBefore[i][p] || t.OKPeers[p] {
+					continue
+				}
+				if !r.offeredInLast(i, p) {
+					return "failed-peer-not-eligible-again:" + algo, fmt.Sprintf("b%d is held, %s is connected, advertises a greater predictability for the destination, never received the bundle successfully and is not its previous node, but the retry tick did not offer it", i, p)
+				}
+			}
+		}
+	}
 	return "", ""
 }
 
@@ -178,7 +211,9 @@ func runC13(r *ev.Run, thorough bool) int {
 		}
 		if a == "prophet" {
 			mv := []nhEvent{{Op: "up", P: "r1"}, {Op: "up", P: "r2"}, {Op: "receive", B: 2, P: "r1"}, {Op: "receive", B: 3, P: "r2"}}
-			roots = []root{{mv, 3, 5}, {append(append([]nhEvent(nil), mv...), nhEvent{Op: "fail", P: "r1"}), 2, 4}}
+			roots = []root{{mv, 3, 5}, {append(append([]nhEvent(nil), mv...), nhEvent{Op: "fail", P: "r1"}), 2, 4},
+				// a single better forwarder whose transmissions fail (the sent list of a fresh bundle becomes empty again)
+				{[]nhEvent{{Op: "up", P: "r1"}, {Op: "receive", B: 2, P: "r1"}, {Op: "fail", P: "r1"}}, 2, 4}}
 		}
 		for _, rt := range roots {
 			d := rt.dq
